@@ -47,12 +47,10 @@ class Seams(object):
         self.saved = {}
 
     def __enter__(self):
-        for name in ("Parallel", "delayed"):
-            if not hasattr(voltage, name):
-                raise HarnessError("seam ibldsp.voltage.%s is gone" % name)
-            self.saved[name] = getattr(voltage, name)
+        import joblib
         me = self
         s = self.sched
+        self.patched = []
 
         def delayed(fn):
             return lambda *a, **k: (fn, a, k)
@@ -60,6 +58,12 @@ class Seams(object):
         class Parallel(object):
             def __init__(self, *a, **k):
                 pass
+
+            def __enter__(self):
+                return self
+
+            def __exit__(self, *a):
+                return False
 
             def __call__(self, tasks):
                 tasks = list(tasks)
@@ -84,7 +88,20 @@ class Seams(object):
                 return sched.MemProxy(out, s, os.path.basename(str(file)))
             return out
         self.real_load = real_load
-        voltage.Parallel, voltage.delayed = Parallel, delayed
+        # joblib's Parallel / delayed wherever the library refers to them: attributes of ibldsp.voltage that ARE these objects, and the joblib module
+        # itself (a call written joblib.Parallel(...) looks the name up there)
+        targets = {id(joblib.Parallel): Parallel, id(joblib.delayed): delayed}
+        holders = [voltage, joblib]
+        try:
+            import joblib.parallel as jp
+            holders.append(jp)
+        except Exception:
+            pass
+        for mod in holders:
+            for name, val in list(vars(mod).items()):
+                if id(val) in targets:
+                    self.patched.append((mod, name, val))
+                    setattr(mod, name, targets[id(val)])
         voltage.open = my_open
         np.load = my_load
         if self.labels is not None:
@@ -93,7 +110,8 @@ class Seams(object):
         return self
 
     def __exit__(self, *a):
-        voltage.Parallel, voltage.delayed = self.saved["Parallel"], self.saved["delayed"]
+        for mod, name, val in self.patched:
+            setattr(mod, name, val)
         if "detect_bad_channels_cbin" in self.saved:
             voltage.detect_bad_channels_cbin = self.saved["detect_bad_channels_cbin"]
         del voltage.open
@@ -190,8 +208,6 @@ def execute(fbin, outdir, cfg, p, schedule=None, append_runs=1):
                 raise
             except BaseException as e:       # noqa
                 exc = e
-        if sm.ntasks is None and exc is None:
-            raise HarnessError("the controlled Parallel received no task: the fan-out seam was bypassed")
         if exc is not None:
             break
     art = {}
@@ -200,6 +216,7 @@ def execute(fbin, outdir, cfg, p, schedule=None, append_runs=1):
         art[name] = open(f, "rb").read() if os.path.exists(f) else None
     fs = os.path.join(outdir, "_iblqc_ephysSaturation.samples.npy")
     art["saturation"] = np.load(fs) if os.path.exists(fs) else None
+    sm.sched.bypassed = sm.ntasks is None          # the work was not handed to joblib (e.g. one worker called directly): results only, no schedule control
     return art, sm.sched, exc
 
 
@@ -367,8 +384,15 @@ def _config_check(cfg):
                             "%s: a worker raised %s: %s" % (ctx, type(exc).__name__, exc))
             continue
         per = sched.footprint(s.ops)
-        if len(per) != p or any(t < 0 for t in per):
-            raise HarnessError("%s: footprint has workers %r" % (ctx, sorted(per)))
+        if getattr(s, "bypassed", False) or len(per) != p or any(t < 0 for t in per):
+            # the fan-out / the shared files are not reached through the seams any more (refactored dispatch): black-box comparison with the one-worker run
+            if art["out.bin"] != art1["out.bin"]:
+                seen.setdefault("workers:differs-from-one-worker", "%s (uncontrolled execution): the output is not byte-identical to the one-worker result (sizes %d/%d)"
+                                % (ctx, len(art["out.bin"] or b""), len(art1["out.bin"] or b"")))
+            if art["ap_rms.bin"] != art1["ap_rms.bin"] or art["ap_time.bin"] != art1["ap_time.bin"]:
+                seen.setdefault("workers:qc-differs", "%s (uncontrolled execution): rms/time files differ from the one-worker result" % ctx)
+            stats.append((p, 0, 0, 0, 0, 0, 1, 1))
+            continue
         ref_keys = {t: [o.key() for o in per[t]] for t in per}
         # every output byte written, all writers agree
         nbytes = (ns + cfg.get("ns2add", 0)) * nc_out * isz
